@@ -19,9 +19,10 @@ NoV == [n |-> 0, k |-> "none", o |-> "none"]
 NoO == [n |-> 0, o |-> "none"]
 
 VARIABLES l, sc, L1, L2, L3, inCr, fS, fL, run, cnt, mpc, orderOK, erCnt, seenRefs, reentered,
-          failedEver, created, depsOK, popOK, endOK, faultOK, lazyOK, selfOnlyOK, lookupOK, procOK, firstRun, sameOK, ranM, runOK
+          failedEver, created, depsOK, popOK, endOK, faultOK, lazyOK, selfOnlyOK, lookupOK, procOK, firstRun, sameOK, ranM, runOK,
+          pubBefore    \* per node: the components that were published when its latest creation attempt began
 vars == <<l, sc, L1, L2, L3, inCr, fS, fL, run, cnt, mpc, orderOK, erCnt, seenRefs, reentered,
-          failedEver, created, depsOK, popOK, endOK, faultOK, lazyOK, selfOnlyOK, lookupOK, procOK, firstRun, sameOK, ranM, runOK>>
+          failedEver, created, depsOK, popOK, endOK, faultOK, lazyOK, selfOnlyOK, lookupOK, procOK, firstRun, sameOK, ranM, runOK, pubBefore>>
 
 ScOf(j) == [single   |-> [n \in Node |-> ToSet(j.single[n])],
             selfOpt  |-> [n \in Node |-> j.selfOpt[n]],
@@ -35,6 +36,7 @@ ScOf(j) == [single   |-> [n \in Node |-> ToSet(j.single[n])],
             rorder   |-> [i \in 1..Len(j.rorder) |-> j.rorder[i]],
             late     |-> [n \in Node |-> j.late[n]],
             prewire  |-> [n \in Node |-> ToSet(j.prewire[n])],
+            once     |-> [n \in Node |-> j.once[n]],
             ilook    |-> [n \in Node |-> j.ilook[n]],
             sparse   |-> j.sparse]
 
@@ -58,7 +60,7 @@ FreshP(s) ==
   /\ run' = "running" /\ cnt' = [n \in Node |-> ZeroCnt] /\ mpc' = [n \in Node |-> "idle"]
   /\ orderOK' = TRUE /\ erCnt' = [n \in Node |-> 0] /\ seenRefs' = [n \in Node |-> {}]
   /\ reentered' = FALSE /\ failedEver' = FALSE /\ created' = {} /\ depsOK' = TRUE /\ popOK' = TRUE /\ endOK' = TRUE /\ faultOK' = TRUE /\ lazyOK' = TRUE
-  /\ selfOnlyOK' = TRUE /\ lookupOK' = TRUE /\ procOK' = TRUE
+  /\ selfOnlyOK' = TRUE /\ lookupOK' = TRUE /\ procOK' = TRUE /\ pubBefore' = [n \in Node |-> {}]
 Init ==
   /\ l = 2 /\ sc = ScOf(Trace[1].sc)
   /\ L1 = [n \in Node |-> NoV] /\ L2 = [n \in Node |-> NoV] /\ L3 = {} /\ inCr = {}
@@ -67,6 +69,7 @@ Init ==
   /\ orderOK = TRUE /\ erCnt = [n \in Node |-> 0] /\ seenRefs = [n \in Node |-> {}]
   /\ reentered = FALSE /\ failedEver = FALSE /\ created = {} /\ depsOK = TRUE /\ popOK = TRUE /\ endOK = TRUE /\ faultOK = TRUE /\ lazyOK = TRUE
   /\ selfOnlyOK = TRUE /\ lookupOK = TRUE /\ procOK = TRUE /\ firstRun = NoFirst /\ sameOK = TRUE /\ ranM = <<>> /\ runOK = TRUE
+  /\ pubBefore = [n \in Node |-> {}]
 
 E == Trace[l]
 
@@ -166,6 +169,7 @@ Step ==
           /\ failedEver' = IF E.ev = "runReturn" /\ E.ok THEN FALSE
                            ELSE (failedEver \/ (E.ev = "createEnd" /\ ~E.ok) \/ (E.ev = "get" /\ E.err))
           /\ created' = IF E.ev = "createBegin" THEN created \cup {E.n} ELSE created
+          /\ pubBefore' = IF E.ev = "createBegin" THEN [pubBefore EXCEPT ![E.n] = {m \in Node : L1[m] # NoV}] ELSE pubBefore
           /\ procOK' = (procOK /\ ProcCheck)
           /\ ranM' = IF E.ev = "run" THEN Append(ranM, E.n) ELSE ranM
           /\ runOK' = (runOK /\ RunCheck)
@@ -197,6 +201,19 @@ M_C01_PublishedStable ==
   [][E.ev # "scenario" => \A n \in Node : L1[n] # NoV => L1'[n] = L1[n]]_vars
 M_C04_NoHalfBuilt == lookupOK   \* also C01: a lookup by name returns the published object
 M_C03_NoStale == M_C01_Identity
+\* ... also after a creation failed and was retried (post-run lookups; Started is out of scope then): whenever holder and target are
+\* both published and nothing is in creation, the holder holds the published version of the target - for every holder that was
+\* (re-)created during or after the target's successful attempt.  The other holders - published BEFORE the target's current attempt
+\* began, i.e. survivors of an attempt in which the target failed after handing them its early reference - are the recorded
+\* finding F16 (they keep the failed attempt's version; nothing consults them when the retry publishes another one).
+SameVersion(f, t) == f.v.o = L1[t].o
+RetryScope(h, t) == L1[h] # NoV /\ L1[t] # NoV
+M_C03_RetryNoStale ==
+  (run = "ok" /\ inCr = {}) => /\ \A f \in fS : (RetryScope(f.h, f.t) /\ f.h \notin pubBefore[f.t]) => SameVersion(f, f.t)
+                               /\ \A f \in fL : (f.v.n \in Node /\ RetryScope(f.h, f.v.n) /\ f.h \notin pubBefore[f.v.n]) => SameVersion(f, f.v.n)
+M_F16_SurvivorSeesFinal ==
+  (run = "ok" /\ inCr = {}) => /\ \A f \in fS : (RetryScope(f.h, f.t) /\ f.h \in pubBefore[f.t]) => SameVersion(f, f.t)
+                               /\ \A f \in fL : (f.v.n \in Node /\ RetryScope(f.h, f.v.n) /\ f.h \in pubBefore[f.v.n]) => SameVersion(f, f.v.n)
 M_C02_NoReentry == ~reentered
 M_C02_NoSelfWire == /\ \A f \in fS : ~(f.v.n = f.h /\ f.v.o = "raw")
                     /\ \A f \in fL : ~(f.v.n = f.h /\ f.v.o = "raw")
